@@ -265,6 +265,16 @@ def _harness_innermost(tb):
     return frames[-1] if frames else None
 
 
+_SHAPE_MARKS = ("not aligned", "could not be broadcast", "operands could not be broadcast", "shape mismatch",
+                "setting an array element with a sequence", "is out of bounds for axis", "index out of range",
+                "too many indices", "not enough values to unpack", "too many values to unpack", "inhomogeneous shape",
+                "all the input array dimensions", "cannot reshape array")
+
+
+def _shape_error(et, ev):
+    return et in (ValueError, IndexError, TypeError) and any(m in str(ev) for m in _SHAPE_MARKS)
+
+
 def run_body(s, case, pid=None):
     """Run one sub-check body on one case.  Returns (ctx, failure) where
     failure is None or a dict; raises HarnessError for errors in harness code."""
@@ -285,6 +295,19 @@ def run_body(s, case, pid=None):
         if et.__module__.startswith("hypothesis"):
             raise
         fr = _repo_frame(tb)
+        if fr is None and _shape_error(et, ev):
+            # the oracle could not combine the output of the code under test with its reference: the output has a shape
+            # the property does not allow (too few / too many values).  Reported as a violation, not as a harness error:
+            # on the unchanged tree every sub-check runs without such an exception.
+            fail = {"sub": s.id,
+                    "msg": "output of the code under test has an unexpected shape: the reference computation failed with %s(%s)"
+                           % (et.__name__, str(ev)[:200]),
+                    "sig": dict(getattr(ctx, "sig_on_exception", {}) or {}, exc="shape"),
+                    "details": {}}
+            kf = known().match(pid, s.id, fail["sig"])
+            if kf is not None:
+                fail["known"] = kf["id"]
+            return ctx, fail
         if fr is None:
             raise HarnessError("harness exception in %s: %s\n%s"
                                % (s.id, repr(e), "".join(traceback.format_exception(et, ev, tb)[-6:])))
